@@ -198,15 +198,16 @@ def sensor_reset_task_waits_reset_after_then_reports_off(reset_after):
     assert s.state is False and len(ghost("updates")) == 1
 
 
-@lemma("C42", params=dict(reset_after=TIMEOUT, accepted=Bool(), decoded=Bool()), stubs=STUBS + [(sw_mod, "RemoteValueSwitch", FakeRV), (asyncio, "sleep", _sleep)])
-def switch_reset_task_waits_reset_after_then_switches_off(reset_after, accepted, decoded):
+@lemma("C42", params=dict(reset_after=TIMEOUT, accepted=Bool(), decoded=Bool(), raw=Int(0, 1)), stubs=STUBS + [(sw_mod, "RemoteValueSwitch", FakeRV), (asyncio, "sleep", _sleep)])
+def switch_reset_task_waits_reset_after_then_switches_off(reset_after, accepted, decoded, raw):
     """Switch: an accepted 'on' write starts the reset task once (restart = C36), anything else starts
-    nothing; the task sleeps exactly reset_after and then switches off."""
+    nothing; the task sleeps exactly reset_after and then switches off. 'On' is the decoded value of the
+    switch, whatever bit the telegram carries (an inverted switch receives 'on' as 0)."""
     xk = World()
     xk.task_registry = RecRegistry()
     sw = Switch(xk, "sw", group_address=None, reset_after=reset_after)
     sw.switch.accepted, sw.switch.decoded = accepted, decoded
-    t = Telegram(destination_address=GroupAddress(1), payload=GroupValueWrite(None))
+    t = Telegram(destination_address=GroupAddress(1), payload=GroupValueWrite(DPTBinary(raw)))
     sw.process_group_write(t)
     if accepted and decoded:
         assert ghost("started") == [sw._reset_task]
